@@ -31,6 +31,12 @@ import (
 //	       <slot :Var="it"></slot></div> - the same slot content is used once per item (twice per
 //	       item with Twice), each use with that item as slot prop, so the expected outline is that
 //	       of a loop over List whose body is kids
+//	comp : an include (Short: a shorthand component tag) of a component file written compactly, no
+//	       whitespace between its tags, whose root is a <template> wrapper (docs/components.md: "always
+//	       wrap components with <template>"): mk=M :c0=Cond :c1=Cond2 are passed as props. Variant
+//	       chain / attr (<template :require="mk">) / spaced (with line breaks) / bare (no wrapper): a
+//	       v-if="c0" / v-else-if="c1" / v-else chain of <p data-m=Ma|Mb|Me>; pair: v-if="c0" / v-else;
+//	       single: one <div data-m=M> holding the pair
 //	text : a non-whitespace text sibling " wM " (Interp: " w{{ tw }}M " with tw="Z"), never placed
 //	       between the members of a chain; it is part of the own text of the enclosing marker
 //	       element (of the virtual root at top level)
@@ -40,20 +46,23 @@ import (
 //
 // An elif / else node that does not continue a chain is an orphan.
 type Node struct {
-	Kind   string `json:"kind"`
-	M      string `json:"m"`
-	Cond   string `json:"cond,omitempty"` // [!]name or [!]loopvar.name
-	Tmpl   bool   `json:"tmpl,omitempty"`
-	For    int    `json:"for,omitempty"`
-	Sep    string `json:"sep,omitempty"` // what precedes the node: "" | "w" | "c" | "wcw"
-	List   string `json:"list,omitempty"`
-	Var    string `json:"var,omitempty"`
-	Pre    bool   `json:"pre,omitempty"`    // member also carries v-pre (leaf members only)
-	Once   bool   `json:"once,omitempty"`   // member also carries v-once
-	Interp bool   `json:"interp,omitempty"` // text: contains an interpolation
-	Twice  bool   `json:"twice,omitempty"`  // slotted: the component uses its slot twice per item
-	Props  int    `json:"props,omitempty"`  // include: number of props p0.. passed to the component
-	Kids   []Node `json:"kids,omitempty"`
+	Kind    string `json:"kind"`
+	M       string `json:"m"`
+	Cond    string `json:"cond,omitempty"` // [!]name or [!]loopvar.name
+	Tmpl    bool   `json:"tmpl,omitempty"`
+	For     int    `json:"for,omitempty"`
+	Sep     string `json:"sep,omitempty"` // what precedes the node: "" | "w" | "c" | "wcw"
+	List    string `json:"list,omitempty"`
+	Var     string `json:"var,omitempty"`
+	Pre     bool   `json:"pre,omitempty"`     // member also carries v-pre (leaf members only)
+	Once    bool   `json:"once,omitempty"`    // member also carries v-once
+	Cond2   string `json:"cond2,omitempty"`   // comp: second condition
+	Variant string `json:"variant,omitempty"` // comp: which component file
+	Short   bool   `json:"short,omitempty"`   // comp: written as shorthand component tag
+	Interp  bool   `json:"interp,omitempty"`  // text: contains an interpolation
+	Twice   bool   `json:"twice,omitempty"`   // slotted: the component uses its slot twice per item
+	Props   int    `json:"props,omitempty"`   // include: number of props p0.. passed to the component
+	Kids    []Node `json:"kids,omitempty"`
 }
 
 // Case is a template (forest of nodes) plus its data.
@@ -68,7 +77,9 @@ type Case struct {
 	// named like default template functions: title, len, default ...; every name is defined, a
 	// missing one as nil), "cmp-seq" / "cmp-sne" / "cmp-eq" / "cmp-ne" (every condition variable is a
 	// bool stored as "yes" / "no" and every operand X is written X === 'yes', X !== 'no', X == 'yes',
-	// X != 'no').
+	// X != 'no'), "call-and" / "call-or" (bool-only data under keys named like built-ins / template
+	// functions - count, type, title, trim, upper, lower, int, string - and every operand X written
+	// next to a template function call: len(li) > 0 && X, len(nl) > 0 || X with li=[1], nl=[]).
 	Form string `json:"form,omitempty"`
 	// Items is the Go type of loop items: "" map[string]any, "struct" condStruct, "ptr" *condStruct
 	// (fields read by JSON tag: it1.ca), "embed" / "embedptr" a struct that embeds condStruct by
@@ -134,7 +145,15 @@ func globalIndex(name string) int {
 // funcNameOf maps the logical condition variables to names of default template functions.
 var funcNameOf = []string{"title", "len", "default", "type", "json", "string", "int", "file"}
 
-func isCmp(form string) bool { return strings.HasPrefix(form, "cmp-") }
+// isCmp: the forms whose data is bool-only (every operand defined): comparisons and the
+// combinations with a template function call.
+func isCmp(form string) bool {
+	return strings.HasPrefix(form, "cmp-") || strings.HasPrefix(form, "call-")
+}
+
+// callNameOf maps the logical condition variables to data keys that are also built-ins of the
+// expression library and / or registered template functions (forms call-and / call-or).
+var callNameOf = []string{"count", "type", "title", "trim", "upper", "lower", "int", "string"}
 
 // style is what the source writer gets: the case's form and, behind a bar, its item type.
 func (c *Case) style() string { return c.Form + "|" + c.Items }
@@ -170,6 +189,19 @@ func condText(cond, st string) string {
 	if strings.HasPrefix(cond, "!") {
 		neg, cond = "!", cond[1:]
 	}
+	if strings.HasPrefix(form, "call-") {
+		if i := globalIndex(cond); i >= 0 {
+			cond = callNameOf[i]
+		}
+		e := "len(li) > 0 && " + cond
+		if form == "call-or" {
+			e = "len(nl) > 0 || " + cond
+		}
+		if neg != "" {
+			return "!(" + e + ")"
+		}
+		return e
+	}
 	if isCmp(form) {
 		op := map[string]string{"cmp-seq": " === 'yes'", "cmp-sne": " !== 'no'", "cmp-eq": " == 'yes'", "cmp-ne": " != 'no'"}[form]
 		if neg != "" {
@@ -204,7 +236,7 @@ func condText(cond, st string) string {
 // comparisons are not written into plain bound attributes, and !== not into :class objects.
 func probeAttrs(st string) (attr, class bool) {
 	form, _ := splitStyle(st)
-	if isCmp(form) {
+	if strings.HasPrefix(form, "cmp-") {
 		return false, form != "cmp-sne"
 	}
 	return true, true
@@ -330,7 +362,10 @@ type stats struct {
 	laterDeco        bool          // an unchosen member after the chosen one carries v-pre / v-once / v-for
 	chosenN          map[*Node]int // how often each member was the chosen one
 	onceRepeat       []*Node       // v-once members chosen more than once: C16's subject, not asserted here
-	includes         int           // include nodes evaluated
+	comps            int           // comp nodes evaluated
+	compShort        bool
+	compVariants     map[string]bool
+	includes         int // include nodes evaluated
 	maxProps         int
 	probes           int
 	propCond         bool // a condition names a component prop (p<k>) that is undefined where it is evaluated
@@ -345,7 +380,7 @@ type model struct {
 }
 
 func newStats() *stats {
-	return &stats{ignore: map[string]bool{}, chose: map[string]int{}, seps: map[string]bool{}, chosenN: map[*Node]int{}}
+	return &stats{ignore: map[string]bool{}, chose: map[string]int{}, seps: map[string]bool{}, chosenN: map[*Node]int{}, compVariants: map[string]bool{}}
 }
 
 // truthy evaluates a condition reference against the scope with the documented table.
@@ -433,6 +468,37 @@ func (m *model) eval(nodes []Node, sc scope, depth int, inLoop, inChain bool) []
 			}
 			out = append(out, Out{Text: tok}) // ID "": folded into the parent's own text
 			// a following v-if starts a new chain, but the text is what follows the previous one
+			prevChainEnd = false
+		case "comp":
+			m.st.comps++
+			m.st.compVariants[n.Variant] = true
+			if n.Short {
+				m.st.compShort = true
+			}
+			leaf := func(suffix string) Out { return Out{ID: n.M + suffix, Text: "t" + n.M + suffix} }
+			c0 := m.truthy(n.Cond, sc)
+			c1 := n.Cond2 != "" && m.truthy(n.Cond2, sc)
+			switch n.Variant {
+			case "pair", "single":
+				pick := leaf("e")
+				if c0 {
+					pick = leaf("a")
+				}
+				if n.Variant == "single" {
+					out = append(out, Out{ID: n.M, Text: "t" + n.M, Kids: []Out{pick}})
+				} else {
+					out = append(out, pick)
+				}
+			default:
+				switch {
+				case c0:
+					out = append(out, leaf("a"))
+				case c1:
+					out = append(out, leaf("b"))
+				default:
+					out = append(out, leaf("e"))
+				}
+			}
 			prevChainEnd = false
 		case "include":
 			m.st.includes++
@@ -714,6 +780,17 @@ func writeNodes(sb *strings.Builder, nodes []Node, form string) {
 			} else {
 				sb.WriteString(" w" + n.M + " ")
 			}
+		case n.Kind == "comp":
+			props := fmt.Sprintf(` mk="%s" :c0="%s"`, n.M, condText(n.Cond, form))
+			if n.Cond2 != "" {
+				props += fmt.Sprintf(` :c1="%s"`, condText(n.Cond2, form))
+			}
+			if n.Short {
+				tag := "comp-" + n.Variant
+				sb.WriteString(`<` + tag + props + `></` + tag + `>`)
+			} else {
+				sb.WriteString(`<template include="components/Comp` + strings.ToUpper(n.Variant[:1]) + n.Variant[1:] + `.vuego"` + props + `></template>`)
+			}
 		case n.Kind == "include":
 			fmt.Fprintf(sb, `<template include="comp.vuego" mk="%s"`, n.M)
 			for k := 0; k < n.Props; k++ {
@@ -782,9 +859,27 @@ var slotComponents = map[string]string{
 	"slottwice.vuego": `<div data-m="{{ mk }}" v-for="it in items">t{{ mk }}-{{ it.id }}<slot :su="it"></slot><slot :su="it"></slot></div>`,
 }
 
+// compFiles are the component files of comp nodes (components/Comp<Variant>.vuego, shorthand tag
+// <comp-variant>).
+var compFiles = func() map[string]string {
+	a := `<p data-m="{{ mk }}a" v-if="c0">t{{ mk }}a</p>`
+	b := `<p data-m="{{ mk }}b" v-else-if="c1">t{{ mk }}b</p>`
+	e := `<p data-m="{{ mk }}e" v-else>t{{ mk }}e</p>`
+	return map[string]string{
+		"components/CompChain.vuego":  `<template>` + a + b + e + `</template>`,
+		"components/CompAttr.vuego":   `<template :require="mk">` + a + b + e + `</template>`,
+		"components/CompSpaced.vuego": "<template>\n  " + a + "\n  " + b + "\n  " + e + "\n</template>\n",
+		"components/CompBare.vuego":   a + b + e,
+		"components/CompPair.vuego":   `<template>` + a + e + `</template>`,
+		"components/CompSingle.vuego": `<template><div data-m="{{ mk }}">t{{ mk }}` + a + e + `</div></template>`,
+	}
+}()
+
+var compVariantNames = []string{"chain", "attr", "spaced", "bare", "pair", "single"}
+
 func hasInclude(nodes []Node) bool {
 	for i := range nodes {
-		if nodes[i].Kind == "include" || nodes[i].Kind == "slotted" || hasInclude(nodes[i].Kids) {
+		if nodes[i].Kind == "include" || nodes[i].Kind == "slotted" || nodes[i].Kind == "comp" || hasInclude(nodes[i].Kids) {
 			return true
 		}
 	}
@@ -813,7 +908,7 @@ func maxFor(nodes []Node) int {
 // data builds the typed Go data of a case.
 func (c *Case) data() map[string]any {
 	d := map[string]any{}
-	cmp := isCmp(c.Form)
+	cmp := strings.HasPrefix(c.Form, "cmp-")
 	goVal := func(v vals.V) any {
 		if v.K == "missing" || v.K == "" {
 			return nil
@@ -828,6 +923,13 @@ func (c *Case) data() map[string]any {
 	}
 	// globals, stored the way the case's form reads them
 	switch c.Form {
+	case "call-and", "call-or":
+		for k, v := range c.Vars {
+			if v.K != "missing" {
+				d[callNameOf[globalIndex(k)]] = v.Go()
+			}
+		}
+		d["li"], d["nl"] = []any{1}, []any{}
 	case "", "cmp-seq", "cmp-sne", "cmp-eq", "cmp-ne":
 		for k, v := range c.Vars {
 			if v.K != "missing" {
